@@ -445,6 +445,7 @@ def run_case(spec, env, split, want_trace=False):
     lo = 0
     skey = spec.key
     bounds = []
+    emitted = []
     for k, n in enumerate(split):
         hi = lo + n
         bounds.append((lo, hi))
@@ -469,7 +470,10 @@ def run_case(spec, env, split, want_trace=False):
             continue
         res.transitions += 1
         got = L[-1] if len(L) > before else None
-        res.states.append(hash((skey, env.rowkey(hi), canon(got))))
+        cgot = canon(got)
+        if got is not None:
+            emitted.append((got, cgot))
+        res.states.append(hash((skey, env.rowkey(hi), cgot)))
         if trace is not None:
             trace.append([n, short(got), None if (want is NOOB or mode == "concat") else short(want)])
         if mode != "concat" and obliged:
@@ -481,6 +485,13 @@ def run_case(spec, env, split, want_trace=False):
                 res.fail = Fail(d[0], k, d[1], got=got)
                 break
         lo = hi
+    if res.fail is None:
+        # an emitted object is the caller's: the pipeline going on must not change it afterwards (a result that
+        # aliases the running state would)
+        for i, (obj, c0) in enumerate(emitted):
+            if canon(obj) != c0:
+                res.fail = Fail("emitted-object-changed-later", len(split) - 1, {"emission": i, "when_emitted": c0[:120], "now": canon(obj)[:120]})
+                break
     if mode == "concat" and res.fail is None:
         res.fail = _concat_check(spec, env, split, L)
     res.trace = trace
